@@ -114,6 +114,20 @@ CHECKS = {
         note="Trusted: Coq kernel + vm_compute; hand-written models Decoders/Hard.v tied by correspondence; Massey's theorem and Reed's majority-logic "
              "correctness are NOT formalised (partial: those two decoders are checked on the implementation only). Closed under the global context.",
         technique="Coq proof (coset-leader minimality by induction over the enumeration order, weight lemmas on bit masks, argmin lemma) + kernel-evaluated checkers + exact decoder correspondence by vm_compute"),
+    "C11": dict(
+        text="Coq theorems: for EVERY m and every input of length 2^m the m butterfly stages equal multiplication by the m-fold Kronecker "
+             "power of [[1,0],[1,1]]; the transform is GF(2)-linear and an involution (encoder injective); the ranking regenerated from "
+             "rank_polar.csv equals the pinned 5G sequence and is a permutation below every power of two up to 1024 (kernel computation), "
+             "hence exactly k information positions for every admissible (k,N), nested in k; successive cancellation returns the message and "
+             "the codeword from noise-free LLRs of ANY positive magnitudes, for every m, every information mask, frozen value and every "
+             "sign-consistent check function (induction over the recursion), instantiated for the clipped min-sum rule. Model evaluated in "
+             "Coq against the encoder (all messages k<=10, both frozen values, interleaving, user masks, Kronecker rows) and against the "
+             "SC decoder on arbitrary exact dyadic LLRs (both interleavings, 5G and user masks).",
+        design="6/C11",
+        note="Trusted: Coq kernel + vm_compute; translator harness/translate/polarrank.py; pinned copy Spec/Polar5G.v; partial: the sum-product check "
+             "function (tanh) is not shown sign-consistent over the reals here, polar BP and the interleaved variants have oracles / executable "
+             "models but no theorem; float32 underflow region excluded (A-float). Closed under the global context.",
+        technique="Coq proof (induction on the recursion depth over lists; Kronecker recursion; counting lemma for the information set; kernel computation on the regenerated table) + model/implementation correspondence by vm_compute"),
 }
 NOT_YET = {}
 
